@@ -16,7 +16,7 @@ pub fn prop() -> Prop {
     Prop {
         id: "C16",
         level: "model_checking",
-        rule: "(a) histories: every ordered sequence of <= 2 (quick) / <= 3 (thorough) programs of a 40-program batch chosen to collide (same literals, names and strings in different positions, values equal under == but not identical such as 0.0 and -0.0 or 1 and 1.0, heap allocation everywhere, builtin and nested-call errors, output), evaluated one after the other on one thread of one process: every evaluation must give the outcome the program gives alone in a FRESH process; (b) schedules: for every unordered pair of a 10-program subset, two evaluations on real threads under a controlled scheduler that yields before every VM instruction and between the phases of eval; EVERY schedule with at most p preemptions is run to completion and each thread's outcome must equal its solo outcome; (c) configurations: the whole check, and a table of operator and arithmetic programs across the overflow boundaries, runs under two builds of the interpreter (release-like; debug assertions + overflow checks) and the (program, outcome) tables must be identical, with the solo outcomes always taken from the release build. States = schedules + histories completed; transitions = scheduling points executed",
+        rule: "(a) histories: every ordered sequence of <= 2 (quick) / <= 3 (thorough) programs of a 40-program batch chosen to collide (same literals, names and strings in different positions, values equal under == but not identical such as 0.0 and -0.0 or 1 and 1.0, heap allocation everywhere, builtin and nested-call errors, output), evaluated one after the other on one thread of one process: every evaluation must give the outcome the program gives alone in a FRESH process; (a'') near-identical long texts: self-printing programs of 16 length classes from 100 bytes to 128 KiB, each evaluated after a text of the same length that differs in one byte, at 64 consecutive middle positions and at both ends; (b) schedules: for every unordered pair of a 10-program subset, two evaluations on real threads under a controlled scheduler that yields before every VM instruction and between the phases of eval; EVERY schedule with at most p preemptions is run to completion and each thread's outcome must equal its solo outcome; (c) configurations: the whole check, and a table of operator and arithmetic programs across the overflow boundaries, runs under two builds of the interpreter (release-like; debug assertions + overflow checks) and the (program, outcome) tables must be identical, with the solo outcomes always taken from the release build. States = schedules + histories completed; transitions = scheduling points executed",
         assumptions: &[
             "(d) the executable's symbol table is scanned for writable statics / thread-locals of the interpreter crate; if there are none the instruction-granularity schedules are sufficient; if some appear, a free-running (sampling, labelled) complement on real parallel threads is added, because the exhaustive argument no longer covers races inside one instruction",
             "instruction granularity: accesses inside one VM instruction are not interleaved by this scheduler; unsynchronised shared memory touched within a single instruction is outside its reach (the crate has no static, thread_local, lock or atomic: grep-verified in DESIGN 8)",
@@ -245,6 +245,48 @@ fn table_programs(tier: Tier, seed: u64) -> Vec<Vec<Stmt>> {
     out
 }
 
+/// Self-printing programs of one length class evaluated one after the other, consecutive texts differing in
+/// one byte (see (a'') in the rule).
+fn near_identical(sh: &mut Shard, profile: &str, only_len: Option<usize>) {
+        'near: for len in [100usize, 500, 1000, 1030, 1100, 2050, 2100, 3000, 4100, 5000, 8200, 10_000, 16_400, 33_000, 66_000, 131_000] {
+            if only_len.map(|l| l != len).unwrap_or(false) {
+                continue;
+            }
+            let base: Vec<u8> = (0..len).map(|i| b'a' + (i % 23) as u8).collect();
+            let mid = len / 2;
+            let mut positions: Vec<usize> = (mid..(mid + 64).min(len)).collect();
+            positions.extend([0, 1, 2, len - 3, len - 2, len - 1]);
+            let mut prev_output = String::new();
+            for (n, p) in std::iter::once(None).chain(positions.iter().map(|p| Some(*p))).enumerate() {
+                let mut body = base.clone();
+                if let Some(p) = p {
+                    body[p] = b'A' + (n % 26) as u8;
+                }
+                let body = String::from_utf8(body).unwrap();
+                let text = format!("print(\"{body}\"); {len}");
+                let o = sched::solo(&text, 1_000_000);
+                sh.count("transitions");
+                let want_out = format!("{body}\n");
+                let ok = o.output == want_out && matches!(&o.end, crate::outcome::ImplEnd::Value(v) if *v == len.to_string());
+                if !ok {
+                    let same_as_previous = o.output == prev_output;
+                    sh.violation(
+                        "history",
+                        json!({"profile": profile, "near_identical": {"length": len, "differs_at": p}, "history": ["(the same text with another byte changed)", format!("print(\"…{} bytes…\"); {len}", len)]}),
+                        format!(
+                            "a {len}-byte program that prints its own body gave {} with {} bytes of output{}; expected its own body and the value {len}",
+                            impl_end_text(&o.end),
+                            o.output.len(),
+                            if same_as_previous { " — the output of the PREVIOUS, different text" } else { "" }
+                        ),
+                    );
+                    break 'near;
+                }
+                prev_output = o.output;
+            }
+        }
+}
+
 fn run(sh: &mut Shard) {
     let tier = sh.cfg.tier;
     let profile = if cfg!(debug_assertions) { "dev" } else { "rel" };
@@ -320,6 +362,16 @@ fn run(sh: &mut Shard) {
                 sh.sample(json!({"history": idx.iter().map(|i| BATCH[*i]).collect::<Vec<_>>()}));
             }
         }
+    }
+    // (a'') near-identical long texts: programs that print their own body (so the expected output is known in
+    // closed form), of every length class from 100 bytes to 128 KiB, evaluated one after the other on this
+    // thread; consecutive texts have the SAME length and differ in ONE byte, at every one of 64 consecutive
+    // positions (all residues of any sampling stride up to 64) in the middle, and at both ends
+    if sh.shard == 1 % sh.nshards {
+        sh.mine();
+        sh.begin(&|| "near-identical long texts".to_string());
+        sh.count(&format!("near-identical:{profile}"));
+        near_identical(sh, profile, None);
     }
     // (a') one long history: thousands of programs that each bring fresh names, numbers and strings (whatever
     // table, cache or counter a change might keep between evaluations gets filled and wrapped), the batch
@@ -477,6 +529,10 @@ fn run(sh: &mut Shard) {
 
 fn replay(sh: &mut Shard, case: &Value) {
     sh.mine();
+    if let Some(len) = case["near_identical"]["length"].as_u64() {
+        near_identical(sh, if cfg!(debug_assertions) { "dev" } else { "rel" }, Some(len as usize));
+        return;
+    }
     if let Some(h) = case["history"].as_array() {
         let progs: Vec<String> = h.iter().filter_map(|x| x.as_str().map(|s| s.to_string())).collect();
         if let Some(before) = case["evaluated_before_on_this_thread"].as_array() {
